@@ -269,8 +269,9 @@ def build(seed, tier, log=vp.log):
 
 def get(ctx):
     os.makedirs(STREAM, exist_ok=True)
-    key = hashlib.sha1(("%s|%s|%s|%s" % (vp.repo_hash(), vp.verif_hash(["tools", "lib", "ocaml", "coq/theories", "harness", "corpus"]),
-                                         ctx.seed, ctx.tier)).encode()).hexdigest()[:16]
+    # the model enters the key through its extracted source: adding theorems does not invalidate the stream
+    key = hashlib.sha1(("%s|%s|%s|%s|%s" % (vp.repo_hash(), vp.verif_hash(["tools", "lib", "ocaml", "harness", "corpus"]), vp.model_hash(),
+                                            ctx.seed, ctx.tier)).encode()).hexdigest()[:16]
     path = os.path.join(STREAM, "run-%s.pkl" % key)
     if os.path.exists(path) and os.path.isdir(os.path.join(STREAM, "bin-%s" % key)):
         with open(path, "rb") as f:
